@@ -25,6 +25,10 @@ def show_ops(ops):
             out.append(f"SN(t{o[1]},c{o[2]:02d})")
         elif o[0] in ("BGC", "JOINC", "JOIN", "SETTLE"):
             out.append(o[0])
+        elif o[0] == "WAITMORE":
+            out.append(f"WAITMORE({o[1]},{o[2]})")
+        elif o[0] == "MARKHITS":
+            out.append(f"MARKHITS({o[1]})")
         elif o[0] == "WAITHITS":
             out.append(f"WAITHITS({o[1]},{o[2]})")
         elif o[0] in ("PARK", "RELEASE", "WAITP", "BGQ", "OP", "BLOCKSEG"):
